@@ -53,6 +53,7 @@ def typedef_names():
 def job(args):
     hs, dialect, as_list, tmp, idx = args[:5]
     spaced = len(args) > 5 and args[5]
+    preamble = args[6] if len(args) > 6 else ""
     from pycparser import parse_file, c_ast
     from pycparser.c_parser import CParser
     INC = INC0
@@ -65,6 +66,7 @@ def job(args):
     path = os.path.join(tmp, "src dir" if spaced else "", "t%d.c" % idx)
     names = typedef_names()
     with open(path, "w") as f:
+        f.write(preamble)
         for h in hs:
             f.write('#include "%s"\n' % h)
         # the central typedef list is only promised by the public headers (the `_fake_*` helper files
@@ -90,7 +92,7 @@ def job(args):
         return "declarations using the typedef names: %d of %d" % (len(used), len(names))
     # identical to preprocessing and parsing by hand
     argv = ["cpp"] + (cpp_args if isinstance(cpp_args, list) else [cpp_args]) + [path]
-    text = subprocess.run(argv, stdout=subprocess.PIPE, universal_newlines=True).stdout
+    text = subprocess.run(argv, stdout=subprocess.PIPE, stderr=subprocess.DEVNULL, universal_newlines=True).stdout
     from ..pyparse import dump
     ast2 = CParser().parse(text, path)
     if dump(ast, True) != dump(ast2, True):
@@ -138,13 +140,19 @@ def run(ctx):
             for as_list in (True, False):
                 jobs.append(([h], "-std=c99", as_list, tmp, k, True))
                 k += 1
+        # sources on which cpp succeeds but prints warnings (a macro of _fake_defines.h defined differently
+        # before the include, #warning, an apostrophe in a skipped block): diagnostics are not program text
+        for pre in ("#define NULL ((void *)0)\n", "#warning take care\n", "#if 0\nit's skipped\n#endif\n", "#define EOF (-2)\n#define BUFSIZ 7\n"):
+            for h, as_list in (("stdio.h", True), ("stdlib.h", False), ("X11/Xlib.h", True)):
+                jobs.append(([h], "-std=c99", as_list, tmp, k, False, pre))
+                k += 1
         res = pmap(job, jobs)
         md = run_model([req("cpp", ",".join(j[0])) for j in jobs]) if ctx.model_available else None
         keys = set()
         for i, (j, r) in enumerate(zip(jobs, res)):
             keys.add((tuple(j[0]), j[1], j[2]))
             if not (isinstance(r, tuple) and r[0] == "OK"):
-                ctx.violation("%s for headers %r with %s (%s)" % (r, j[0][:6], j[1], "list" if j[2] else "str"), {"kind": "headers", "headers": j[0], "dialect": j[1], "as_list": j[2], "spaced": len(j) > 5})
+                ctx.violation("%s for headers %r with %s (%s)" % (r, j[0][:6], j[1], "list" if j[2] else "str"), {"kind": "headers", "headers": j[0], "dialect": j[1], "as_list": j[2], "spaced": len(j) > 5 and j[5], "preamble": j[6] if len(j) > 6 else ""})
                 continue
             if md is not None:
                 got = [f for f in r[1] if f in BODY_FILES and f != "_fake_defines.h" and f != "X11/_X11_fake_defines.h"]
@@ -152,7 +160,7 @@ def run(ctx):
                 if got != want:
                     ctx.violation("real cpp emitted bodies %r, Cpp.lean predicts %r for headers %r" % (got, want, j[0][:6]), {"kind": "headers", "headers": j[0], "dialect": j[1], "as_list": j[2]})
         ctx.count(len(jobs), nontrivial_keys={repr(k_) for k_ in keys})
-        ctx.rule("all %d header files alone x dialects %s x {list, str} cpp_args, random subsets/orders/repetitions of headers, header tree and source under paths containing blanks (list and str form), and every order of first need of the three body groups; each generated .c file includes the headers and then declares a variable of every one of the %d typedef names; parse_file(use_cpp=True) must succeed, contain all typedefs and uses, equal preprocessing+parsing by hand, and emit the bodies Cpp.lean predicts" % (len(hs), dialects, len(typedef_names())))
+        ctx.rule("all %d header files alone x dialects %s x {list, str} cpp_args, random subsets/orders/repetitions of headers, header tree and source under paths containing blanks (list and str form), every order of first need of the three body groups, and sources on which cpp prints warnings while succeeding (macro redefinition, #warning, apostrophe in a skipped block); each generated .c file includes the headers and then declares a variable of every one of the %d typedef names; parse_file(use_cpp=True) must succeed, contain all typedefs and uses, equal preprocessing+parsing by hand, and emit the bodies Cpp.lean predicts" % (len(hs), dialects, len(typedef_names())))
         ctx.sample({"kind": "headers", "headers": jobs[-1][0], "dialect": jobs[-1][1]})
     finally:
         shutil.rmtree(tmp, ignore_errors=True)
@@ -162,7 +170,7 @@ def replay(ctx, payload):
     i = payload["input"]
     tmp = tempfile.mkdtemp(prefix="c19_")
     try:
-        r = job((i["headers"], i["dialect"], i["as_list"], tmp, 0) + ((True,) if i.get("spaced") else ()))
+        r = job((i["headers"], i["dialect"], i["as_list"], tmp, 0, bool(i.get("spaced")), i.get("preamble", "")))
     finally:
         shutil.rmtree(tmp, ignore_errors=True)
     print(r if not isinstance(r, tuple) else r[0])
